@@ -231,7 +231,7 @@ def judge(t):
     res = listener(lm, use_udp, fd, tk['img'])
     feas = []
     for w, wr in res:
-        if B.PathCond(w.decisions).infeasible:
+        if w.status == 'infeasible' or B.PathCond(w.decisions).infeasible:
             continue
         if w.status != 'ok':
             out.append(('undecided', 'listener', '%s: listener side: %s' % (desc, w.reason)))
